@@ -143,10 +143,12 @@ func run(c Case) ([]vk.Violation, vk.Info) {
 
 	// ---- structure of every collection ----
 	for k, cy := range w.cycles {
-		if cy.DeltaErr != nil {
+		// A Collect that returns the error of a failing callback is still a
+		// collection: what it left in rm enters the oracle like any other.
+		if cy.DeltaErr != nil && !cy.Failed {
 			bad("collect_error", "collection %d: delta reader Collect: %v", k+1, cy.DeltaErr)
 		}
-		if cy.CumErr != nil {
+		if cy.CumErr != nil && !cy.Failed {
 			bad("collect_error", "collection %d: cumulative reader Collect: %v", k+1, cy.CumErr)
 		}
 		for _, rs := range []struct {
@@ -154,6 +156,9 @@ func run(c Case) ([]vk.Violation, vk.Info) {
 			s    *snap
 			want metricdata.Temporality
 		}{{"delta", cy.Delta, metricdata.DeltaTemporality}, {"cumulative", cy.Cum, metricdata.CumulativeTemporality}} {
+			if rs.s == nil {
+				continue
+			}
 			for _, p := range rs.s.Problems {
 				kind, msg, _ := strings.Cut(p, "\x00")
 				bad(kind, "collection %d, %s reader: %s", k+1, rs.who, msg)
@@ -197,37 +202,47 @@ func run(c Case) ([]vk.Violation, vk.Info) {
 	for _, d := range obsDefs {
 		birth[d.name] = born{w.obsBr, 0}
 	}
+	prevD := -1 // the most recent earlier cycle in which the delta reader collected
 	for k, cy := range w.cycles {
-		var prev *snap
-		if k > 0 {
-			prev = w.cycles[k-1].Delta
+		if w.ambiguous {
+			break
 		}
-		for _, name := range names(cy.Delta.Series) {
-			se := cy.Delta.Series[name]
-			b, known := birth[name]
-			if !known {
-				bad("unknown_metric", "collection %d: delta reader reports metric %q that was never created", k+1, name)
-				continue
+		if cy.Delta != nil {
+			var prev *snap
+			if prevD >= 0 {
+				prev = w.cycles[prevD].Delta
 			}
-			prevBr, what := b.br, "the instrument's creation"
-			if k > b.at {
-				prevBr, what = w.cycles[k-1].DeltaBr, fmt.Sprintf("delta collection %d", k)
-			}
-			for _, set := range keys(se.Pts) {
-				p := se.Pts[set]
-				if !within(p.Start, prevBr) {
-					badAt(fmt.Sprintf("StartTime %v, bracket [%v, %v]", p.Start, prevBr.Before, prevBr.After),
-						"delta_start_outside_previous_collection", "collection %d, %s set #%d: delta StartTime is not within the harness bracket of %s", k+1, name, set, what)
+			for _, name := range names(cy.Delta.Series) {
+				se := cy.Delta.Series[name]
+				b, known := birth[name]
+				if !known {
+					bad("unknown_metric", "collection %d: delta reader reports metric %q that was never created", k+1, name)
+					continue
 				}
-				if prev != nil {
-					if ps := prev.Series[name]; ps != nil {
-						if pp := ps.Pts[set]; pp != nil && !p.Start.Equal(pp.Time) {
-							badAt(fmt.Sprintf("StartTime %v, previous Time %v", p.Start, pp.Time),
-								"delta_start_ne_previous_time", "collection %d, %s set #%d: delta StartTime != Time of the same stream's point in delta collection %d", k+1, name, set, k)
+				prevBr, what := b.br, "the instrument's creation"
+				if prevD >= b.at {
+					prevBr, what = w.cycles[prevD].DeltaBr, fmt.Sprintf("the previous delta collection (%d)", prevD+1)
+				}
+				for _, set := range keys(se.Pts) {
+					p := se.Pts[set]
+					if !within(p.Start, prevBr) {
+						badAt(fmt.Sprintf("StartTime %v, bracket [%v, %v]", p.Start, prevBr.Before, prevBr.After),
+							"delta_start_outside_previous_collection", "collection %d, %s set #%d: delta StartTime is not within the harness bracket of %s", k+1, name, set, what)
+					}
+					if prev != nil {
+						if ps := prev.Series[name]; ps != nil {
+							if pp := ps.Pts[set]; pp != nil && !p.Start.Equal(pp.Time) {
+								badAt(fmt.Sprintf("StartTime %v, previous Time %v", p.Start, pp.Time),
+									"delta_start_ne_previous_time", "collection %d, %s set #%d: delta StartTime != Time of the same stream's point in delta collection %d", k+1, name, set, prevD+1)
+							}
 						}
 					}
 				}
 			}
+			prevD = k
+		}
+		if cy.Cum == nil {
+			continue
 		}
 		for _, name := range names(cy.Cum.Series) {
 			se := cy.Cum.Series[name]
@@ -255,8 +270,20 @@ func run(c Case) ([]vk.Violation, vk.Info) {
 		wantType := map[syncKind]string{kCounter: "sum", kUpDown: "sum", kHist: "hist", kExpo: "expo", kGauge: "gauge"}[d.kind]
 		tot := map[int]*running{}
 		for k, cy := range w.cycles {
-			ds, cs := cy.Delta.Series[d.name], cy.Cum.Series[d.name]
-			both := []readerSeries{{"delta", ds}, {"cumulative", cs}}
+			var ds, cs *series
+			if cy.Delta != nil {
+				ds = cy.Delta.Series[d.name]
+			}
+			if cy.Cum != nil {
+				cs = cy.Cum.Series[d.name]
+			}
+			both := []readerSeries{}
+			if cy.Delta != nil {
+				both = append(both, readerSeries{"delta", ds})
+			}
+			if cy.Cum != nil {
+				both = append(both, readerSeries{"cumulative", cs})
+			}
 			for _, rs := range both {
 				who, se := rs.who, rs.se
 				if se != nil && se.Type != wantType {
@@ -348,7 +375,7 @@ func run(c Case) ([]vk.Violation, vk.Info) {
 							}
 						}
 					}
-					if cs == nil || cs.Pts[set] == nil {
+					if cy.Cum != nil && (cs == nil || cs.Pts[set] == nil) {
 						bad("delta_without_cumulative", "collection %d: delta reader reports %s set #%d but the cumulative reader does not", k+1, d.name, set)
 					}
 				}
@@ -415,19 +442,36 @@ func run(c Case) ([]vk.Violation, vk.Info) {
 		if d.kind == oGauge {
 			wantType = "gauge"
 		}
+		// per reader: what its callback round of the previous cycle (in which
+		// it collected) observed.
+		prevOf := map[string]map[int]float64{}
 		for k, cy := range w.cycles {
-			obs := cy.Observed[i]
-			var prevObs map[int]float64
-			if k > 0 {
-				prevObs = w.cycles[k-1].Observed[i]
+			if w.ambiguous {
+				break
 			}
-			for set := range obs {
+			anyObs := cy.ObservedD
+			if anyObs == nil {
+				anyObs = cy.ObservedC
+			}
+			for set := range anyObs[i] {
 				if gapThenBack(streamKey{d.name, set}, k) {
 					reappearAsync = true
 				}
 			}
-			for _, rs := range []readerSeries{{"delta", cy.Delta.Series[d.name]}, {"cumulative", cy.Cum.Series[d.name]}} {
-				who, se := rs.who, rs.se
+			conc := ""
+			if cy.Burst != "" {
+				conc = fmt.Sprintf(" [collection %d of %d concurrent ones]", cy.BurstPos+1, burstLen(w, k))
+			}
+			for _, rd := range []struct {
+				who string
+				sn  *snap
+				obs []map[int]float64
+			}{{"delta", cy.Delta, cy.ObservedD}, {"cumulative", cy.Cum, cy.ObservedC}} {
+				if rd.sn == nil || rd.obs == nil {
+					continue
+				}
+				who, se, obs, prevObs := rd.who, rd.sn.Series[d.name], rd.obs[i], prevOf[rd.who]
+				prevOf[who] = obs
 				if se != nil && se.Type != wantType {
 					bad("unexpected_data_type", "collection %d: %s reader reports %s as %s, want %s", k+1, who, d.name, se.Type, wantType)
 					continue
@@ -438,14 +482,14 @@ func run(c Case) ([]vk.Violation, vk.Info) {
 				}
 				for _, set := range keys(pts) {
 					if _, ok := obs[set]; !ok {
-						bad("async_unobserved_set_reported", "collection %d: %s reader reports %s set #%d = %v, which no callback observed in this cycle (observed: %v)", k+1, who, d.name, set, pts[set].Val, obs)
+						bad("async_unobserved_set_reported", "collection %d%s: %s reader reports %s set #%d = %v, which no callback observed in this cycle (observed: %v)", k+1, conc, who, d.name, set, pts[set].Val, obs)
 					}
 				}
 				for _, set := range keys(obs) {
 					v := obs[set]
 					p := pts[set]
 					if p == nil {
-						bad("async_observed_set_missing", "collection %d: %s reader does not report %s set #%d, observed as %v in this cycle", k+1, who, d.name, set, v)
+						bad("async_observed_set_missing", "collection %d%s: %s reader does not report %s set #%d, observed as %v in this cycle", k+1, conc, who, d.name, set, v)
 						continue
 					}
 					want, kind := v, "async_cumulative_value"
@@ -457,7 +501,7 @@ func run(c Case) ([]vk.Violation, vk.Info) {
 						negDelta = negDelta || want < 0
 					}
 					if p.Val != want {
-						bad(kind, "collection %d: %s reader reports %s set #%d = %v, want %v (observed %v, preceding cycle observed %v)", k+1, who, d.name, set, p.Val, want, obs, prevObs)
+						bad(kind, "collection %d%s: %s reader reports %s set #%d = %v, want %v (observed %v, preceding cycle observed %v)", k+1, conc, who, d.name, set, p.Val, want, obs, prevObs)
 					}
 				}
 			}
@@ -477,7 +521,7 @@ func run(c Case) ([]vk.Violation, vk.Info) {
 				if !contains(w.c.Multi[j], i) {
 					continue
 				}
-				for _, e := range planAt(w, k, i) {
+				for _, e := range cy.Plan[i] {
 					if e.Via == j+1 {
 						observed = true
 					}
@@ -515,6 +559,9 @@ func run(c Case) ([]vk.Violation, vk.Info) {
 	}
 	layout := map[string]map[[2]int]held{} // per reused ResourceMetrics: what each output slot held last
 	note := func(id string, sn *snap) {
+		if sn == nil {
+			return
+		}
 		switch {
 		case id == "fresh":
 			rmFresh = true
@@ -545,22 +592,66 @@ func run(c Case) ([]vk.Violation, vk.Info) {
 		note(strings.Replace(cy.DeltaRMIs, "own", "own-delta", 1), cy.Delta)
 		note(strings.Replace(cy.CumRMIs, "own", "own-cum", 1), cy.Cum)
 		handover = handover || cy.Handover
-		for _, sl := range cy.Cum.Slot {
-			twoScopes = twoScopes || sl[0] > 0
+		if cy.Cum != nil {
+			for _, sl := range cy.Cum.Slot {
+				twoScopes = twoScopes || sl[0] > 0
+			}
 		}
 		if k > 0 {
-			for name, sl := range cy.Cum.Slot {
-				if was, ok := w.cycles[k-1].Cum.Slot[name]; ok && was != sl {
-					slotShiftCum = true
+			pc := w.cycles[k-1]
+			if cy.Cum != nil && pc.Cum != nil {
+				for name, sl := range cy.Cum.Slot {
+					if was, ok := pc.Cum.Slot[name]; ok && was != sl {
+						slotShiftCum = true
+					}
 				}
 			}
-			for name, sl := range cy.Delta.Slot {
-				if was, ok := w.cycles[k-1].Delta.Slot[name]; ok && was != sl {
-					slotShiftDelta = true
+			if cy.Delta != nil && pc.Delta != nil {
+				for name, sl := range cy.Delta.Slot {
+					if was, ok := pc.Delta.Slot[name]; ok && was != sl {
+						slotShiftDelta = true
+					}
 				}
 			}
 		}
 	}
+	var failedCycle, failAfterObserving, failThenOK, burstD, burstC, burst3, burstAsync, burstSync bool
+	for k, cy := range w.cycles {
+		if cy.Failed {
+			failedCycle = true
+			for kk := k + 1; kk < len(w.cycles); kk++ {
+				failThenOK = failThenOK || !w.cycles[kk].Failed
+			}
+			for i := range obsDefs {
+				if cy.ObservedD != nil && len(cy.ObservedD[i]) > 0 && w.failedAt(cy, i) == 2 {
+					failAfterObserving = true
+				}
+			}
+		}
+		if cy.Burst != "" {
+			burstD, burstC = burstD || cy.Burst == "d", burstC || cy.Burst == "c"
+			burst3 = burst3 || cy.BurstPos == 2
+			obs := cy.ObservedD
+			if cy.Burst == "c" {
+				obs = cy.ObservedC
+			}
+			for i := range obsDefs {
+				burstAsync = burstAsync || len(obs[i]) > 0
+			}
+			for i := range syncDefs {
+				burstSync = burstSync || len(cy.Recorded[i]) > 0
+			}
+		}
+	}
+	info.ClassIf(failedCycle, "callback_error_in_a_cycle")
+	info.ClassIf(failThenOK, "callback_error_then_a_successful_cycle")
+	info.ClassIf(failAfterObserving, "callback_observes_then_fails")
+	info.ClassIf(burstD, "concurrent_collect(delta reader)")
+	info.ClassIf(burstC, "concurrent_collect(cumulative reader)")
+	info.ClassIf(burst3, "concurrent_collect(3 goroutines)")
+	info.ClassIf(burstAsync, "concurrent_collect_with_async_observations")
+	info.ClassIf(burstSync, "concurrent_collect_with_sync_records_in_cycle")
+	info.ClassIf(w.ambiguous, "concurrent_collect_order_ambiguous(interval+async clauses skipped)")
 	info.ClassIf(rmFresh, "rm:fresh(retained outputs re-read)")
 	info.ClassIf(rmOwn, "rm:reader_reuses_own_output")
 	info.ClassIf(rmPool, "rm:shared_pool_slot")
@@ -578,6 +669,9 @@ func run(c Case) ([]vk.Violation, vk.Info) {
 				continue
 			}
 			for _, cy := range w.cycles {
+				if cy.Cum == nil {
+					continue
+				}
 				if se := cy.Cum.Series[d.name]; se != nil && len(cy.Recorded[i]) > 0 {
 					for _, p := range se.Pts {
 						widths[len(p.Buckets)] = true
@@ -606,36 +700,20 @@ func run(c Case) ([]vk.Violation, vk.Info) {
 	for i, d := range obsDefs {
 		used := false
 		for _, cy := range w.cycles {
-			used = used || len(cy.Observed[i]) > 0
+			used = used || (cy.ObservedD != nil && len(cy.ObservedD[i]) > 0) || (cy.ObservedC != nil && len(cy.ObservedC[i]) > 0)
 		}
 		info.ClassIf(used, "inst:"+d.name)
 	}
 	return vs, info
 }
 
-// planAt replays the plan ops to find the plan of observable i in force at
-// collection k (classification only).
-func planAt(w *world, k, i int) []Obs {
-	var plan []Obs
-	n := 0
-	steps := w.c.Ops
-	if len(steps) > maxSteps {
-		steps = steps[:maxSteps]
+// burstLen is the number of cycles of the concurrent step cycle k belongs to.
+func burstLen(w *world, k int) int {
+	n := 1
+	for j := k + 1; j < len(w.cycles) && w.cycles[j].Burst != "" && w.cycles[j].BurstPos > w.cycles[j-1].BurstPos; j++ {
+		n++
 	}
-	for _, op := range steps {
-		switch op.K {
-		case "plan":
-			if op.Inst == i {
-				plan = w.sanitizePlan(op.Plan)
-			}
-		case "collect":
-			if n == k {
-				return plan
-			}
-			n++
-		}
-	}
-	return plan
+	return w.cycles[k].BurstPos + n
 }
 
 func diffSnap(a, b *snap) string {
